@@ -54,6 +54,12 @@ fn main() {
         std::process::exit(2);
     }
     let property = args[1].to_uppercase();
+    // hidden sub-process mode of C14 (one feature mask per process)
+    if property == "C14-CHILD" {
+        core::install_quiet_panic_hook();
+        c14::child(&args[2..]);
+        return;
+    }
     let mut tier = std::env::var("VERIF_TIER").unwrap_or_else(|_| "quick".into());
     let mut case: Option<String> = None;
     let mut build = if cfg!(debug_assertions) { "checked".to_string() } else { "release".to_string() };
@@ -88,12 +94,6 @@ fn main() {
     let ctx = Ctx { property: property.clone(), tier, seed, build, verif_dir };
 
     core::install_quiet_panic_hook();
-
-    // hidden sub-process mode of C14 (one feature mask per process)
-    if property == "C14-CHILD" {
-        c14::child(&args[2..]);
-        return;
-    }
 
     if let Some(case) = case {
         // replay: run the single case twice; both runs must agree (determinism), then verdict
